@@ -1,6 +1,6 @@
 (* GENERATED ONCE by tools/pin.py from Properties/C16.v and committed: the pinned statements. *)
 From VF.Properties Require C16.
-From VF Require Import Base Gen_Errors Status Status_proofs.
+From VF Require Import Base Gen_Errors Status Status_proofs Contrib ContribSpec Contrib_proofs.
 Open Scope N_scope.
 
 
@@ -31,3 +31,9 @@ Check (VF.Properties.C16.C16_opcq_tst_answers : forall mav d,
   /\ snd (fst (sop_step mav d STstQ)) = Some [RInt (match tst_result d with None => 0%Z | Some c => c end)]
   /\ fst (fst (sop_step mav d SOpcQ)) = d /\ fst (fst (sop_step mav d STstQ)) = d).
 Check (VF.Properties.C16.C16_rst_wai_frame : forall mav d, fst (fst (sop_step mav d SRst)) = d /\ fst (fst (sop_step mav d SWai)) = d).
+Check (VF.Properties.C16.C16_full_stack_refines : forall msgs mav us,
+  forallb (fun m => forallb renderable (snd m)) msgs = true -> forallb renderable us = true ->
+  dev_message (session_ops dev_init msgs) mav (units_text us) = Val (op_message (session_ops dev_init msgs) mav us)).
+Check (VF.Properties.C16.C16_full_stack_refines_iff : forall d,
+  (forall mav us, forallb renderable us = true -> dev_message d mav (units_text us) = Val (op_message d mav us))
+  <-> queue_printable d = true).
